@@ -76,6 +76,13 @@ func (c *C17) AfterQuery(w *World, q *QueryCtx) {
 	for _, p := range q.Pages {
 		got = append(got, p...)
 	}
+	if q.Err != "" && qs.StartOffset > uint64(len(q.Want)) {
+		// An offset strictly beyond the end is not part of any page walk the property speaks of.
+		// (The SDK's ORM paginator panics there - Cursor() on an exhausted iterator - and the
+		// query answers with an error instead of an empty page; noted in DESIGN.md, not judged.)
+		w.Probe("c17_offset_beyond_end_answered_with_error")
+		return
+	}
 	if q.Err != "" {
 		if len(q.Want) > 0 && q.Exists {
 			w.Violate("R1", "query-fails-although-entities-match/"+qs.Name, "%s fails (%s) although %d stored entities match: %s", where, firstLine(q.Err), len(q.Want), short(q.Want))
@@ -101,6 +108,38 @@ func (c *C17) AfterQuery(w *World, q *QueryCtx) {
 		missing, extra := diffSets(q.Want, got)
 		if len(missing)+len(extra) > 0 {
 			w.Violate("R4", "single-query-differs-from-state/"+qs.Name, "%s returns %s, the stored state says %s", where, short(got), short(q.Want))
+		}
+		return
+	}
+	if qs.StartOffset > 0 {
+		// a walk that starts in the middle, at the end or beyond it: the order of the list is the
+		// query's own business, so only the count, membership and the total are judged
+		w.Probe("c17_walk_from_start_offset")
+		wantN := 0
+		if uint64(len(q.Want)) > qs.StartOffset {
+			wantN = len(q.Want) - int(qs.StartOffset)
+		} else {
+			w.Probe("c17_walk_from_offset_at_or_beyond_end")
+		}
+		_, extra := diffSets(q.Want, got)
+		if len(extra) > 0 {
+			w.Violate("R1", "list-returns-non-matching/"+qs.Name, "%s limit=%d start_offset=%d reverse=%v returns elements that do not match the filter in the stored state: %s", where, qs.Limit, qs.StartOffset, qs.Reverse, short(extra))
+			return
+		}
+		if len(got) != wantN {
+			w.Violate("R2", "offset-walk-wrong-count/"+qs.Name, "%s limit=%d reverse=%v: walking from offset %d over %d matching elements must yield %d elements, got %d over %d pages: %s", where, qs.Limit, qs.Reverse, qs.StartOffset, len(q.Want), wantN, len(got), len(q.Pages), short(got))
+			return
+		}
+		seenO := map[string]bool{}
+		for _, x := range got {
+			if seenO[x] {
+				w.Violate("R2", "page-walk-repeats-element/"+qs.Name, "%s limit=%d start_offset=%d reverse=%v: element %q is returned twice", where, qs.Limit, qs.StartOffset, qs.Reverse, x)
+				return
+			}
+			seenO[x] = true
+		}
+		if q.HasTotal && q.Total != uint64(len(q.Want)) {
+			w.Violate("R3", "wrong-total/"+qs.Name, "%s limit=%d start_offset=%d reverse=%v reports total %d, %d elements match", where, qs.Limit, qs.StartOffset, qs.Reverse, q.Total, len(q.Want))
 		}
 		return
 	}
